@@ -38,6 +38,65 @@ func genAttrDesc(rng *rand.Rand) (string, string, []string) {
 	return hn + "=" + strings.Join(hv, ","), name, vals
 }
 
+// genRespOptsSets draws a random subset and order of constructor options and a random setter sequence for ctor.
+func genRespOptsSets(rng *rand.Rand, ctor string) ([]string, []string) {
+	var opts, sets []string
+	no := rng.Intn(5)
+	for i := 0; i < no; i++ {
+		switch rng.Intn(6) {
+		case 0, 1:
+			opts = append(opts, fmt.Sprintf("c:%d", []int{0, 1, 32, 49, 53, 80, 4096, 32767, rng.Intn(32768)}[rng.Intn(9)]))
+		case 2:
+			opts = append(opts, fmt.Sprintf("a:%d", rng.Intn(31)))
+		case 3:
+			opts = append(opts, "d:"+hx([]byte(genStr(rng))))
+		case 4:
+			opts = append(opts, "m:"+hx([]byte(genStr(rng))))
+		case 5:
+			if rng.Intn(2) == 0 {
+				opts = append(opts, "t:")
+			} else {
+				d, _, _ := genAttrDesc(rng)
+				opts = append(opts, "t:"+d)
+			}
+		}
+	}
+	if ctor == "modify" && rng.Intn(8) != 0 {
+		opts = append(opts, fmt.Sprintf("c:%d", rng.Intn(100)))
+	}
+	ns := rng.Intn(5)
+	for i := 0; i < ns; i++ {
+		switch rng.Intn(5) {
+		case 0:
+			sets = append(sets, fmt.Sprintf("c:%d", []int{0, 32, 49, 68, 32767, rng.Intn(32768)}[rng.Intn(6)]))
+		case 1:
+			sets = append(sets, "d:"+hx([]byte(genStr(rng))))
+		case 2:
+			sets = append(sets, "m:"+hx([]byte(genStr(rng))))
+		case 3:
+			if ctor == "bind" || ctor == "done" {
+				k := rng.Intn(4)
+				ds := make([]string, k)
+				for j := range ds {
+					c := genCtl(rng)
+					c.ExplicitCrit = false
+					if c.Kind == "str" && c.OID == "" {
+						c.OID = "1.2"
+					}
+					ds[j] = strings.ReplaceAll(ctlDesc(c), " ", ",")
+				}
+				sets = append(sets, "k:"+strings.Join(ds, "/"))
+			}
+		case 4:
+			if ctor == "entry" {
+				d, _, _ := genAttrDesc(rng)
+				sets = append(sets, "t:"+d)
+			}
+		}
+	}
+	return opts, sets
+}
+
 func (respStream) Generate(rng *rand.Rand, n int, thorough bool) []Case {
 	ctors := []string{"general", "bind", "extended", "done", "entry", "modify"}
 	var cs []Case
@@ -48,60 +107,7 @@ func (respStream) Generate(rng *rand.Rand, n int, thorough bool) []Case {
 		if ctor == "entry" {
 			dn = hx([]byte(genStr(rng)))
 		}
-		var opts, sets []string
-		no := rng.Intn(5)
-		for i := 0; i < no; i++ {
-			switch rng.Intn(6) {
-			case 0, 1:
-				opts = append(opts, fmt.Sprintf("c:%d", []int{0, 1, 32, 49, 53, 80, 4096, 32767, rng.Intn(32768)}[rng.Intn(9)]))
-			case 2:
-				opts = append(opts, fmt.Sprintf("a:%d", rng.Intn(31)))
-			case 3:
-				opts = append(opts, "d:"+hx([]byte(genStr(rng))))
-			case 4:
-				opts = append(opts, "m:"+hx([]byte(genStr(rng))))
-			case 5:
-				if rng.Intn(2) == 0 {
-					opts = append(opts, "t:")
-				} else {
-					d, _, _ := genAttrDesc(rng)
-					opts = append(opts, "t:"+d)
-				}
-			}
-		}
-		if ctor == "modify" && rng.Intn(8) != 0 {
-			opts = append(opts, fmt.Sprintf("c:%d", rng.Intn(100)))
-		}
-		ns := rng.Intn(5)
-		for i := 0; i < ns; i++ {
-			switch rng.Intn(5) {
-			case 0:
-				sets = append(sets, fmt.Sprintf("c:%d", []int{0, 32, 49, 68, 32767, rng.Intn(32768)}[rng.Intn(6)]))
-			case 1:
-				sets = append(sets, "d:"+hx([]byte(genStr(rng))))
-			case 2:
-				sets = append(sets, "m:"+hx([]byte(genStr(rng))))
-			case 3:
-				if ctor == "bind" || ctor == "done" {
-					k := rng.Intn(4)
-					ds := make([]string, k)
-					for j := range ds {
-						c := genCtl(rng)
-						c.ExplicitCrit = false
-						if c.Kind == "str" && c.OID == "" {
-							c.OID = "1.2"
-						}
-						ds[j] = strings.ReplaceAll(ctlDesc(c), " ", ",")
-					}
-					sets = append(sets, "k:"+strings.Join(ds, "/"))
-				}
-			case 4:
-				if ctor == "entry" {
-					d, _, _ := genAttrDesc(rng)
-					sets = append(sets, "t:"+d)
-				}
-			}
-		}
+		opts, sets := genRespOptsSets(rng, ctor)
 		line := fmt.Sprintf("resp %s %d %s opts=%s sets=%s", ctor, mid, dn, strings.Join(opts, ";"), strings.Join(sets, ";"))
 		cs = append(cs, Case{Line: line, Kind: ctor})
 	}
